@@ -129,6 +129,73 @@ PROPS["C08"] = {
 }
 
 
+def zigzag(v):
+    return 2 * v if v >= 0 else -2 * v - 1
+
+
+def rice_oracle(pid, res, driver):
+    """Brute force over the whole search space (every order, every parameter per partition)."""
+    findings = []
+    data = res.stream_data.get("RICE")
+    if not data:
+        return findings
+    checked = 0
+    for c, o in zip(data["cases"], data["impl"].get("debug", [])):
+        t = c.split(" ")
+        if t[2] != "F":
+            continue
+        m = re.match(r"\S+ ok order=(\d+) ps=(\S+) bits=(\d+)", o)
+        if not m:
+            findings.append({"case": c[:2000], "impl": o[:200], "why": "find_partitioned_rice_parameter did not return"})
+            continue
+        warm, maxp = int(t[3]), int(t[4])
+        errs = [zigzag(int(x)) for x in t[5].split(",")]
+        n = len(errs)
+        mm = max(64, warm)
+        if n // mm == 0:
+            continue
+        tzn = (n & -n).bit_length() - 1
+        omax = min(15, (n // mm).bit_length() - 1, tzn)
+        def cost(es, p):
+            return 4 + len(es) * (p + 1) + sum(e >> p for e in es)
+        def parts(o):
+            part = n >> o
+            return [errs[i * part + (warm if i == 0 else 0):(i + 1) * part] for i in range(1 << o)]
+        opt = min(sum(min(cost(es, p) for p in range(min(maxp, 15) + 1)) for es in parts(o)) for o in range(omax + 1))
+        io, ips, ibits = int(m.group(1)), [int(x) for x in m.group(2).split(",")], int(m.group(3))
+        checked += 1
+        if io > omax or len(ips) != (1 << io) or any(p > maxp for p in ips):
+            findings.append({"case": c[:2000], "impl": o[:200], "why": "chosen order/parameters outside the search space"})
+            continue
+        chosen = sum(cost(es, p) for es, p in zip(parts(io), ips))
+        if opt < (1 << 28) - 1 and (chosen != opt or ibits != opt):
+            findings.append({"case": c[:2000], "impl": o[:200], "why": "chosen Rice coding costs %d bits (reported %d) but the optimum of the search space is %d" % (chosen, ibits, opt)})
+    res.extra["oracle_checked"] = checked
+    return findings
+
+
+def nontrivial_rice(case, out):
+    m = re.search(r"order=(\d+)", out)
+    return (m is not None and int(m.group(1)) >= 1) or case.split(" ")[2] in ("M", "Z")
+
+
+RICE_STREAM = {"name": "RICE", "quick": 2500, "thorough": 40000, "profiles": ["debug", "release"], "nontrivial": nontrivial_rice}
+
+PROPS["C13"] = {
+    "coq": "theories/Props/C13.v",
+    "theorems": ["C13_rice_optimal", "C13_table_merge_exact", "C13_finest_order"],
+    "streams": [RICE_STREAM],
+    "rule": "RICE: unit-level find_partitioned_rice_parameter on residual signals (zeros, uniform at scales 1..2^27, sparse "
+            "outliers to 2^30, +-i32::MAX, per-64-sample scale changes, log-uniform magnitudes, alternating), lengths 64..4608 "
+            "incl. non-powers of two, warm-up 0..32, every maximum parameter class; PrcBitTable from_errors/merge/minimizer on "
+            "folded values incl. runs >= 2^28 (saturation). Non-trivial = chosen order >= 1 or a table op.",
+    "oracle": rice_oracle,
+    "assumptions": ["optimality is stated over the finest partitions of the folded residual (finest_parts); its identification with "
+                    "the sample-indexed residual_bits of the emitted Residual is checked by the brute-force oracle and the ENC stream",
+                    "cost tables are the saturating ones of the repaired code (fix D3)"],
+}
+
+
 def check_coq(pid, spec, res):
     """Build the proofs; returns True when the property's theorems are all checked."""
     closure = fv.dep_closure(spec["coq"])
